@@ -66,7 +66,7 @@ class ErrorFree(BCheck):
     name = "C02.error-free-reads"
     contract = ("run_whatshap on error-free reads: every phase set of the output carries, for its sample, exactly the true haplotype alleles at all its phased "
                 "variants up to exchanging the two haplotypes of the set as a whole; nothing homozygous / unselected is phased")
-    rule = ("seeded scenarios: reference 300-500 bp, 3-8 variants >= 12 bp apart (SNV/MNP/ins/del mixes), 1-2 samples, depth 2-30 per haplotype, read length 40-150, soft "
+    rule = ("seeded scenarios (half of them spell a third of the unphased input genotypes in descending order, 1/0): reference 300-500 bp, 3-8 variants >= 12 bp apart (SNV/MNP/ins/del mixes), 1-2 samples, depth 2-30 per haplotype, read length 40-150, soft "
             "clips, =/X CIGARs, with reference; SNV-only scenarios also without reference; --tag PS|HP, --only-snvs, --sample subset; non-trivial = >= 2 variants phased")
     budget_s = {"quick": 150, "thorough": 1800}
     chunk = 4
@@ -108,7 +108,7 @@ class ErrorFree(BCheck):
                 paths = BAM.materialize(sc, d)
                 bams.append(paths["bam"])
             samples = [sc["samples"][0]] if (inp["subset"] and len(sc["samples"]) > 1) else None
-            res = run_phase(BAM.vcf_text(sc), bams=bams, reference=False if inp["noref"] else paths["fasta"], tag=inp["tag"],
+            res = run_phase(BAM.vcf_text(sc, rev_rng=random.Random(inp["seed"] ^ 0x5EED), rev_frac=0.35 if inp["seed"] % 2 else 0.0), bams=bams, reference=False if inp["noref"] else paths["fasta"], tag=inp["tag"],
                             only_snvs=inp["only_snvs"], samples=samples, max_coverage=inp["max_coverage"])
             if res["error"]:
                 return dict(expected="run succeeds", observed=res["error"], traceback=res.get("traceback"))
